@@ -35,7 +35,7 @@ def exec_text(text, inputs=(), dict_compress=True, ctx=None, stack=None):
         return None, c, "transpile:" + type(e).__name__
     try:
         exec(code, ns)
-    except Exception as e:  # noqa: BLE001
+    except (Exception, SystemExit) as e:  # noqa: BLE001  (the Q element exits: an error of the run, not of the harness)
         return ns["stack"], c, "exec:" + type(e).__name__ + ":" + str(e)[:80]
     return ns["stack"], c, None
 
